@@ -200,7 +200,11 @@ def to_int(it, v, node=None):
                 it.raise_(ValueError, "invalid literal for int()", node=node)
             return mk("int", val)
         if v.kind == "real":
-            raise Unsupported("int() of a real")
+            # int(x) truncates towards zero (T-int: the float is exact, |x| < 2**53)
+            q = it.ctx.fresh("int", "trunc")
+            x = v.term
+            it.ctx.add_fact(z3.If(x >= 0, z3.And(z3.ToReal(q.term) <= x, x < z3.ToReal(q.term) + 1), z3.And(z3.ToReal(q.term) - 1 < x, x <= z3.ToReal(q.term))))
+            return mk("int", q.term)
         raise Unsupported(f"int() of kind {v.kind}")
     if v is None or isinstance(v, (Obj, Row, MapRef, list, tuple, dict)):
         it.raise_(TypeError, "int() argument must be a string, a bytes-like object or a real number", node=node)
@@ -239,11 +243,25 @@ def binop(it, op, a, b, node=None):
         except Exception as exc:  # pylint: disable=broad-except
             raise PyRaise(ExcVal(type(exc), exc.args, site=it.site(node))) from None
     # sequences
-    if isinstance(a, SeqVal) or isinstance(b, SeqVal) or _is_bytes(a) or _is_bytes(b):
+    if op == "Mult" and ((_is_bytes(a) and bytes(a) == b"\xff") or (_is_bytes(b) and bytes(b) == b"\xff")):
+        n = b if _is_bytes(a) else a
+        kn, tn = lift(n)
+        lb = lawbook(it.ctx)
+        t = lb.ff(tn)
+        lb.ff_step(tn)
+        lb.ff_step(z3.simplify(tn - 1))
+        return SeqVal("byte", t, "bytes")
+    if isinstance(a, (SeqVal, SeqRef)) or isinstance(b, (SeqVal, SeqRef)) or _is_bytes(a) or _is_bytes(b):
         if op == "Add":
-            ta, tb = _seq_term(a), _seq_term(b)
-            pt = a.pytype if isinstance(a, SeqVal) else (b.pytype if isinstance(b, SeqVal) else "bytes")
-            ek = a.elem_kind if isinstance(a, SeqVal) else (b.elem_kind if isinstance(b, SeqVal) else "byte")
+            ek = None
+            for x in (a, b):
+                if isinstance(x, SeqVal):
+                    ek = ek or x.elem_kind
+                elif isinstance(x, SeqRef):
+                    ek = ek or x.kind
+            ek = ek or "byte"
+            ta, tb = _seq_term(a, ek), _seq_term(b, ek)
+            pt = a.pytype if isinstance(a, SeqVal) else (b.pytype if isinstance(b, SeqVal) else ("bytes" if ek == "byte" else "list"))
             return SeqVal(ek, z3.Concat(ta, tb), pt)
         raise Unsupported(f"{op} on sequences")
     if isinstance(a, (list, tuple)) and isinstance(b, (list, tuple)) and op == "Add":
@@ -296,7 +314,15 @@ def _is_bytes(v):
     return isinstance(v, (bytes, bytearray))
 
 
-def _seq_term(v):
+def _seq_term(v, elem_kind=None):
+    if isinstance(v, (list, tuple)) and elem_kind is not None and elem_kind != "byte":
+        from .core import to_kind
+
+        sort = z3.SeqSort(KIND_SORT[elem_kind])
+        t = z3.Empty(sort)
+        for x in v:
+            t = z3.Concat(t, z3.Unit(to_kind(force(x), elem_kind)))
+        return t
     if isinstance(v, SeqVal):
         return v.term
     if isinstance(v, SV) and v.kind in ("bytes", "qstr"):
